@@ -404,6 +404,30 @@ def rule_order(repo, rep):
                                       "a list is built in set iteration order (hash / identity order)")
                             continue
                         rep.bad("C14-c", site, f"comprehension over set `{src.id}` builds an ordered result: {norm(par)[:80] if par is not None else ''}", "set iteration order is hash / identity order")
+                # sorted(S) over a set of tuples that end in an object: ties on the leading components are decided by the object's
+                # __lt__; if that ordering is not total (its last field, e.g. a name, can repeat) equal elements keep the set's order
+                if isinstance(node, ast.Call) and call_name(node) == "sorted" and not node.keywords and len(node.args) == 1 and isinstance(node.args[0], ast.Name) and node.args[0].id in sets:
+                    sname = node.args[0].id
+                    adds = [c_ for c_ in walk_no_nested(fn) if isinstance(c_, ast.Call) and isinstance(c_.func, ast.Attribute) and c_.func.attr == "add" and isinstance(c_.func.value, ast.Name)
+                            and c_.func.value.id == sname and c_.args and isinstance(c_.args[0], ast.Tuple)]
+                    for a_ in adds:
+                        objs = [e_ for e_ in a_.args[0].elts if isinstance(e_, ast.Name)]
+                        idx_like = any(isinstance(e_, ast.Name) and e_.id in ("idx", "index", "i", "n") for e_ in a_.args[0].elts[:-1])
+                        if not objs:
+                            continue
+                        n += 1
+                        # the final fields of the __lt__ methods defined in the allocation modules
+                        last_fields = set()
+                        for m2 in (repo.mod("live_range"), repo.mod("hillclimb_allocation")):
+                            for q2, f2 in m2.functions.items():
+                                if q2.endswith(".__lt__"):
+                                    r2 = sorted((r_ for r_ in ast.walk(f2) if isinstance(r_, ast.Return)), key=lambda r_: r_.lineno)
+                                    if r2 and isinstance(r2[-1].value, ast.Compare) and isinstance(r2[-1].value.left, ast.Attribute):
+                                        last_fields.add(r2[-1].value.left.attr)
+                        total = idx_like or last_fields <= {"id", "index", "uid"}
+                        rep.check(total, "C14-c", site, f"sorted({sname}): the order of the sorted set is total (ties cannot occur or are broken by a position in a list)",
+                                  f"elements `{str(norm(a_.args[0]))}` are ordered by their tuple and finally by the object's __lt__, whose last field {sorted(last_fields)} can repeat (two tensors may carry the same name): "
+                                  "fully tied elements keep the set's iteration order, i.e. the objects' memory addresses (demonstrated: --tensor-allocator Greedy, two inputs named alike: two different outputs in 10 runs)")
                 # list(S) / tuple(S): materialising a set as a sequence keeps its hash / identity order
                 if isinstance(node, ast.Call) and call_name(node) in ("list", "tuple") and len(node.args) == 1:
                     a0 = node.args[0]
